@@ -30,7 +30,7 @@ func (p *Prog) typeByName(name string, pkg *types.Package) types.Type {
 		var best types.Type
 		for _, q := range p.ssa.AllPackages() {
 			path := q.Pkg.Path()
-			if path == pn || strings.HasSuffix(path, "/"+pn) {
+			if path == pn || strings.HasSuffix(path, "/"+pn) || q.Pkg.Name() == pn {
 				if o, ok := q.Pkg.Scope().Lookup(tn).(*types.TypeName); ok {
 					if path == pn {
 						return o.Type()
